@@ -448,7 +448,7 @@ Proof.
     apply add_outs_shuffle; [exact Qw|].
     apply (shuffle_view st (put st (set_parked s false)) _ V0).
     apply bind_shuffle.
-    + destruct (o_pending_open o); [apply shuffle_refl|apply clear_queue_shuffle].
+    + apply clear_queue_shuffle.
     + intros st1 o1 Hq. apply add_outs_shuffle; [exact Hq|apply reclaim_all_shuffle].
   - (* LHandleError *)
     eapply Shuffle; [|exact Hstep].
